@@ -20,7 +20,7 @@ CANCELLING = {'sum', 'nansum', 'mean', 'nanmean', 'average', 'cumsum'}
 
 def d1(ctx, prog):
     ci = prog.need_class(MIA, 'MIADistinguisherMixin')
-    setter = ci.setters.get('bin_edges')
+    setter = prog.resolve_setter(ci, 'bin_edges')
     if setter is None:
         raise AnalysisError('bin_edges setter not found')
     from .. import inline
@@ -544,7 +544,7 @@ def d8(ctx, prog, ci):
     the automatic edges (linspace over the observed window) of samples of magnitude 1e7 are then refused as 'not uniform' because
     of the rounding of the edges themselves."""
     from .. import units, inline
-    setter = ci.setters.get('bin_edges')
+    setter = prog.resolve_setter(ci, 'bin_edges')
     setter = inline.inlined(prog, setter)
     p = [x for x in setter.params if x != 'self'][0]
     xc = units.Units(setter, seeds={p: units.D(u=1)}, prog=prog).run()
